@@ -307,6 +307,38 @@ func init() {
 					}
 				}
 			}
+			// names that start with dots at the top of the destination, and on-disk symbolic links as sources of entries
+			// that declare an owner and a time of their own
+			odd := []model.Entry{
+				{Src: "etc/app.conf", Dst: "/.well-known/app.conf"},
+				{Dst: "/.app", Type: "dir"},
+				{Src: "tree", Dst: "/.opt/tree", Type: "tree"},
+				{Src: "/t", Dst: "/.hidden-link", Type: "symlink"},
+				{Src: "etc/app.conf", Dst: "/..data/x"},
+				{Src: "etc/app.conf", Dst: "/.../x"},
+				{Src: "etc/app.conf", Dst: "/./.dotted/x"},
+				{Src: "etc/app.conf", Dst: "/etc/.hidden/.x.conf", Type: "config"},
+				{Src: "etc/app.conf", Dst: "/.app/settings.conf", Type: "config|noreplace"},
+				{Src: "etc/app.conf", Dst: ".rel-hidden/x"},
+				{Dst: "/.ghost", Type: "ghost"},
+				{Src: "link", Dst: "/opt/disklink-owned", Owner: "app", Group: "grp", MTime: EntryMTime},
+				{Src: "link", Dst: "/etc/disklink.conf", Type: "config", Owner: "app", Group: "grp"},
+				{Src: "links/plain", Dst: "/opt/plainlink-owned", Owner: "app", MTime: EntryMTime},
+				{Src: "links/{dot,plain}", Dst: "/opt/linkglob-owned", Owner: "app", Group: "grp", MTime: EntryMTime},
+			}
+			for _, s := range []Setting{sets[0], {Name: "umask=077", Umask: 0o077}, {Name: "mtime=unset", MTime: "unset"}} {
+				for _, e := range odd {
+					if !yield(C01Case{Setting: s, List: []model.Entry{e}}) {
+						return
+					}
+					if !yield(C01Case{Setting: s, List: []model.Entry{{Src: "bin/app", Dst: "/usr/bin/app"}, e}}) {
+						return
+					}
+				}
+				if !yield(C01Case{Setting: s, List: odd}) {
+					return
+				}
+			}
 			// sources written relative to the working directory (the directory itself, dot files, globs without a common directory)
 			for _, sp := range []struct{ cwd, spelling, src, typ string }{
 				{"dots", ".", "dots", "tree"}, {"dots", "./", "dots", "tree"}, {"dots/sub", "..", "dots", "tree"}, {"dots", ".config", "dots/.config", "tree"},
